@@ -14,6 +14,7 @@ import (
 	"os"
 	"os/exec"
 	"path/filepath"
+	"runtime/pprof"
 	"sort"
 	"strconv"
 	"strings"
@@ -62,6 +63,14 @@ func main() {
 	seed := 0
 	if s := os.Getenv("VERIF_SEED"); s != "" {
 		seed, _ = strconv.Atoi(s)
+	}
+	if pf := os.Getenv("VERIF_CPUPROFILE"); pf != "" {
+		f, _ := os.Create(pf)
+		pprof.StartCPUProfile(f)
+		code := run(id, tier, only, repo, verifDir, solver, verbose, noReplay, workers, seed)
+		pprof.StopCPUProfile()
+		f.Close()
+		os.Exit(code)
 	}
 	os.Exit(run(id, tier, only, repo, verifDir, solver, verbose, noReplay, workers, seed))
 }
